@@ -129,6 +129,7 @@ def pObs1 (keys : List Bytes) : P Obs := do
 partial def pObsAll (keys : List Bytes) : P (List Obs) := do
   match ← peek with
   | none => pure []
+  | some "ST" => pure []
   | some _ => do
     let o ← pObs1 keys
     let rest ← pObsAll keys
@@ -200,10 +201,19 @@ def step (line : String) : String :=
   | some (id, inp, obs) =>
     match runP pCase inp with
     | some c =>
-      match runP (pObsAll c.keys) obs with
+      -- an optional trailing `ST <anomaly>`: the …Or getters under reload stress returned something that
+      -- is neither the value nor the default (oracle only; the model has no counterpart)
+      let stress := match obs.reverse with
+        | a :: "ST" :: _ => a == "1"
+        | _ => false
+      let obs' := match obs.reverse with
+        | _ :: "ST" :: rest => rest.reverse
+        | _ => obs
+      match runP (pObsAll c.keys) obs' with
       | some os =>
-        let (mi, s, txt) := runCase c os
-        verdict id mi s "-" (if mi && s then "" else txt)
+        let (mi, s0, txt) := runCase c os
+        let s := s0 && !stress
+        verdict id mi s "-" (if mi && s then "" else txt ++ (if stress then " STRESS-ANOMALY" else ""))
       | none => s!"{id} bad-case (observation)"
     | none => s!"{id} bad-case (input)"
 
